@@ -4,14 +4,16 @@
    Proved over whole histories: 0 <= filled <= amount for every order in every reachable state, ids = positions.
    Proved over whole histories: a closed order never changes again (Structure.v: the only records an operation rewrites
    are those of orders that were open when it started).  Proved over whole histories: the listing of open orders is exact in every reachable state, wherever the periodic
-   re-indexing falls (IndexProofs.v).  C05_partial: the sequence of order events (one per acceptance, fill and
-   closure, in time order, the last equal to the final state) and the by-state filters of get_orders are validated by the
-   correspondence check (including histories of hundreds of bars) and the monitor. *)
+   re-indexing falls (IndexProofs.v).  Proved over whole histories (Events.v): for every order the events published are one
+   for its acceptance, one per fill and one more if it was cancelled, and the last one shows the order as it is -- for
+   histories that start with a bar and whose bars were processed without an internal error.  C05_partial: the by-state
+   filters of get_orders, and the event sequence after a bar that aborted half-way, are validated by the correspondence check
+   (including histories of hundreds of bars) and the monitor. *)
 From Coq Require Import ZArith QArith List Sorted.
 From Basana Require Import Num.DecQ Exchange.Model Exchange.AcctProofs Exchange.StepProofs Exchange.OpProofs
      Exchange.OrderProofs Exchange.LifeProofs Exchange.Prims Exchange.Structure Exchange.LedgerProofs Exchange.FillBounds Exchange.IndexProofs
      Exchange.Reconfig Exchange.ReconfigProofs
-     Exchange.NoPartial Exchange.EventTimes Exchange.FirstBar.
+     Exchange.NoPartial Exchange.EventTimes Exchange.FirstBar Exchange.HoldsOpen Exchange.Events.
 Import ListNotations.
 Open Scope Q_scope.
 
@@ -198,3 +200,38 @@ Example C05_events_premises_met :
               OCreate (KLimit 90) Buy p 1 false false; OBar p 120%Z (mkBar 100 101 99 100 10); OCancel 1%nat] in
   times_ok None ops /\ map fst (s_events (run c (init_st [(2%positive, 1000)]) ops)) = [60; 60; 120; 120]%Z.
 Proof. cbv zeta. split; [cbn; repeat split; discriminate|]. vm_compute. reflexivity. Qed.
+
+(* whole history: the order events mirror the orders -- for every order of every state reached by a history that starts
+   with a bar (the exchange has a clock) and whose bars were processed without an internal error, the events published for
+   it are one for its acceptance, one per fill and one more if it was cancelled (a market / stop order closed as not filled
+   counts as cancelled), and the last of them shows the order as it is now (everything but the internal stop-hit latch,
+   which the published order info does not carry) *)
+Theorem C05_order_events_mirror_the_order : forall c initial ops i o,
+  cfg_ok c -> ops_ok ops -> NoDup (map fst initial) -> (forall kv, In kv initial -> 0 <= snd kv) ->
+  bars_processed c initial ops -> clocked ops -> times_ok None ops ->
+  let s := run c (init_st initial) ops in
+  nth_error (s_orders s) i = Some o ->
+  exists earlier lst, evs_of i (s_events s) = earlier ++ [lst] /\ pub lst = pub o /\
+    length (earlier ++ [lst]) = (1 + length (o_fills o) + canceled o)%nat.
+Proof. exact order_events_mirror_the_order. Qed.
+Print Assumptions C05_order_events_mirror_the_order.
+
+(* the premises are met: a limit order filled in two parts (3 events), a market order too big for the bar (accepted,
+   then closed unfilled: 2 events) and a limit order cancelled by the strategy (2 events) *)
+Example C05_events_mirror_premises_met :
+  let c := mkCfg [(1%positive, 2%nat); (2%positive, 2%nat)] [] None NoFee (VolShare 25 0) NoLoans in
+  let p := (1%positive, 2%positive) in
+  let ops := [OBar p 60%Z (mkBar 100 100 100 100 10); OCreate (KLimit 100) Buy p 4 false false;
+              OCreate KMarket Buy p 50 false false; OCreate (KLimit 50) Buy p 1 false false;
+              OBar p 120%Z (mkBar 100 101 99 100 10); OBar p 180%Z (mkBar 100 101 99 100 10); OCancel 2%nat] in
+  let initial := [(2%positive, 10000)] in
+  let s := run c (init_st initial) ops in
+  cfg_ok c /\ ops_ok ops /\ NoDup (map fst initial) /\ bars_processed c initial ops /\ clocked ops /\ times_ok None ops /\
+  map (fun o => (length (evs_of (o_id o) (s_events s)), length (o_fills o), canceled o)) (s_orders s) =
+    [(3, 2, 0); (2, 0, 1); (2, 0, 1)]%nat.
+Proof.
+  cbv zeta. split; [cbn; discriminate|]. split; [repeat constructor; cbn; discriminate|].
+  split; [repeat constructor; intros []|]. split; [apply bars_processed_of_bool; vm_compute; reflexivity|].
+  split; [exact I|]. split; [cbn; repeat split; discriminate|].
+  vm_compute. reflexivity.
+Qed.
